@@ -121,7 +121,10 @@ pub fn check(sc: &Scenario, env: &mut Env) -> Result<Outcome, HarnessError> {
             if let Some(glob) = &glob {
                 let m = denorm(&y.matched.clone().unwrap_or_default(), &env.root_text);
                 let c = denorm(&y.cand.clone().unwrap_or_default(), &env.root_text);
-                if m != rel || c != rel || !glob.is_match(rel.as_str()) {
+                // (the matched text is text: for a name that is not valid UTF-8 it is the lossy
+                // rendering of the relative segment)
+                let rel_text = lossy(&rel);
+                if m != rel_text || c != rel_text || !glob.is_match(rel_text.as_str()) {
                     out.violate(
                         "C14",
                         "matched",
@@ -131,7 +134,7 @@ pub fn check(sc: &Scenario, env: &mut Env) -> Result<Outcome, HarnessError> {
                             m,
                             c,
                             rel,
-                            glob.is_match(rel.as_str()),
+                            glob.is_match(rel_text.as_str()),
                             w.source
                         ),
                         vec![item.clone()],
@@ -164,6 +167,9 @@ pub fn check(sc: &Scenario, env: &mut Env) -> Result<Outcome, HarnessError> {
             }
         }
         walker_probes(w, &mut out);
+        if sc.tree.iter().any(|n| n.path.chars().any(|c| (0xF880..=0xF8FF).contains(&(c as u32)))) {
+            out.probe("names:not-valid-utf8");
+        }
         if rooted {
             out.probe("glob:rooted");
         }
